@@ -1160,8 +1160,14 @@ class Processor:
                     ) from wrap_ex
 
                 if intmin == intmax and -len(data) <= intmin < len(data):
+                    # The lone element carries its own coordinates, as the
+                    # elements of a longer slice do
                     yield NodeCoords(
-                        [data[intmin]], data, intmin,
+                        [NodeCoords(
+                            data[intmin], data, intmin,
+                            translated_path + "[{}]".format(intmin),
+                            ancestry + [(data, intmin)], pathseg)],
+                        data, intmin,
                         translated_path + "[{}]".format(intmin),
                         ancestry + [(data, intmin)], pathseg)
                 else:
